@@ -555,6 +555,12 @@ func (e *Exec) unop(f *frame, x *ssa.UnOp, h *Heap, g string) (*Heap, string) {
 			out = sh
 		}
 		out.Typ = x.Type()
+		if _, isStruct := x.Type().Underlying().(*types.Struct); isStruct && len(out.Allocs) == 0 && isAllocRef(a.Ref) {
+			// a whole struct value read back from one of this function's objects carries whatever allocations were
+			// stored into that object field by field (a composite literal is built that way and then copied):
+			// stored somewhere else, and published from there, they are published too
+			out.Allocs = append(out.Allocs, e.holds[a.Ref]...)
+		}
 		if _, isMap := x.Type().Underlying().(*types.Map); isMap && gu != nil {
 			out.Guard = gu
 		}
